@@ -83,6 +83,66 @@ Theorem C02b_checker_sound : forall indexed defs ps claimed banks out,
     Output.output_stage (Z.to_N max_bits) banks vs = Ok (out, items).
 Proof. exact cert_check2_sound. Qed.
 
+
+(* ===== #assert directives (src/asm/resolver/assert.rs) in the Resolver2 fragment ===== *)
+(* in the state behind a successful assembly every #assert condition evaluates to TRUE, in the directive's own symbol
+   context, at the bank and position the cursor walk reaches it with *)
+Theorem C02b_assert_holds : forall indexed defs ps budget r,
+  assemble2 indexed defs ps budget = Ok r ->
+  exists m ns st1 st,
+    setup indexed defs ps = Some (m, ns, r_banks r, st1) /\ r_syms r = symbol_values m st /\
+    Certified2 m (r_banks r) defs max_bits ns st /\
+    forall ns1 e ctx ns2, ns = ns1 ++ (XAssert e, ctx) :: ns2 ->
+      exists c0 p0 b pos loc,
+        walk (r_banks r) max_bits ns1 st (Cursor.init_cursor (r_banks r)) None = Ok (c0, p0) /\
+        visit (r_banks r) max_bits (XAssert e, ctx) c0 p0 = Ok (b, pos) /\
+        eval code_ops (pvar2 m st ctx (Cursor.eval_address max_bits b pos false) false) e [] = EOk (VBool true, loc).
+Proof. exact assemble2_asserts_hold. Qed.
+
+Theorem C02b_assert_certified : forall m banks defs mb ns1 e ctx ns2 st,
+  labels_ok2 (ns1 ++ (XAssert e, ctx) :: ns2) st -> Certified2 m banks defs mb (ns1 ++ (XAssert e, ctx) :: ns2) st ->
+  exists c0 p0 b pos loc,
+    walk banks mb ns1 st (Cursor.init_cursor banks) None = Ok (c0, p0) /\ visit banks mb (XAssert e, ctx) c0 p0 = Ok (b, pos) /\
+    eval code_ops (pvar2 m st ctx (Cursor.eval_address mb b pos false) false) e [] = EOk (VBool true, loc).
+Proof. exact certified2_assert. Qed.
+
+(* a program with an assertion that is not true in ANY certified state never assembles, at any budget *)
+Theorem C02b_false_assert_never_assembles : forall indexed defs ps m ns banks st1 ns1 e ctx ns2,
+  setup indexed defs ps = Some (m, ns, banks, st1) -> ns = ns1 ++ (XAssert e, ctx) :: ns2 ->
+  (forall st c0 p0 b pos loc,
+     Certified2 m banks defs max_bits ns st ->
+     walk banks max_bits ns1 st (Cursor.init_cursor banks) None = Ok (c0, p0) ->
+     visit banks max_bits (XAssert e, ctx) c0 p0 = Ok (b, pos) ->
+     eval code_ops (pvar2 m st ctx (Cursor.eval_address max_bits b pos false) false) e [] <> EOk (VBool true, loc)) ->
+  forall budget r, assemble2 indexed defs ps budget <> Ok r.
+Proof. exact assert_false_never_assembles. Qed.
+
+Theorem C02b_unsatisfiable_assert_never_assembles : forall indexed defs ps m ns banks st1 ns1 e ctx ns2,
+  setup indexed defs ps = Some (m, ns, banks, st1) -> ns = ns1 ++ (XAssert e, ctx) :: ns2 ->
+  (forall pv loc, eval code_ops pv e [] <> EOk (VBool true, loc)) ->
+  forall budget r, assemble2 indexed defs ps budget <> Ok r.
+Proof. exact assert_unsatisfiable_never_assembles. Qed.
+
+(* non-vacuity: a true, a false, an address-dependent and an unresolvable / ill-typed condition *)
+Example C02b_assert_true_nonvacuous :
+  assemble2 true [] [PData (Some 8%N) [ENum 7 None]; PAssert ex_true] 1 = Err /\
+  (exists r, assemble2 true [] [PData (Some 8%N) [ENum 7 None]; PAssert ex_true] 2 = Ok r /\ r_iters r = 2%nat) /\
+  (exists r, assemble2 true [] [PData (Some 8%N) [ENum 7 None]; PAssert ex_true] 5 = Ok r /\ r_iters r = 5%nat /\
+             r_bits r = [false; false; false; false; false; true; true; true]).
+Proof. exact assert_true_nonvacuous. Qed.
+Example C02b_assert_false_nonvacuous :
+  forallb (fun b => match assemble2 true [] [PData (Some 8%N) [ENum 7 None]; PAssert ex_false] b with Err => true | _ => false end)
+          [1; 2; 3; 4]%nat = true.
+Proof. exact assert_false_nonvacuous. Qed.
+Example C02b_assert_address_nonvacuous :
+  (exists r, assemble2 true [] (ex_assert_addr 1) 3 = Ok r /\ r_iters r = 3%nat) /\
+  assemble2 true [] (ex_assert_addr 2) 3 = Err /\ assemble2 true [] (ex_assert_addr 1) 1 = Err.
+Proof. exact assert_address_nonvacuous. Qed.
+Example C02b_assert_unresolvable_nonvacuous :
+  assemble2 true [] [PAssert (EVar 0 [[113%N]])] 3 = Err /\ assemble2 true [] [PAssert (ENum 5 None)] 3 = Err /\
+  (exists r, assemble2 true [] [PAssert ex_true] 1 = Ok r /\ r_iters r = 1%nat).
+Proof. exact assert_unresolvable_nonvacuous. Qed.
+
 (* ---------------- for Props/C09.v ---------------- *)
 Theorem C09b_monotone : forall indexed defs ps b b' r,
   (1 <= b)%nat -> (b <= b')%nat ->
@@ -94,10 +154,30 @@ Theorem C09b_passes : forall indexed defs ps budget r,
   assemble2 indexed defs ps budget = Ok r -> (r_iters r <= budget)%nat.
 Proof. exact assemble2_passes. Qed.
 
+(* mode agreement, exact form: from a state on which the strict pass is resolved the guessing pass leaves the same state;
+   it reports Resolved -- unless the program has an #assert directive, which reports Unresolved before the last pass by
+   design (its condition is not even evaluated) *)
 Theorem C09b_mode_agree : forall m banks defs mb ns st st',
   run_pass m banks defs mb true ns st = Ok (st', Resolved) ->
-  run_pass m banks defs mb false ns st = Ok (st', Resolved).
+  run_pass m banks defs mb false ns st = Ok (st', if has_assert ns then Unresolved else Resolved).
 Proof. exact run_pass_agree. Qed.
+
+Theorem C09b_mode_agree_no_assert : forall m banks defs mb ns st st', has_assert ns = false ->
+  run_pass m banks defs mb true ns st = Ok (st', Resolved) ->
+  run_pass m banks defs mb false ns st = Ok (st', Resolved).
+Proof. exact run_pass_agree_no_assert. Qed.
+
+(* with an #assert directive the loop cannot stop early: a successful assembly reports exactly `budget` passes
+   (monotonicity, C09b_monotone, and n <= budget, C09b_passes, hold with asserts unchanged) *)
+Theorem C09b_assert_runs_to_budget : forall indexed defs ps budget r m ns banks st1,
+  setup indexed defs ps = Some (m, ns, banks, st1) -> has_assert ns = true -> (1 <= budget)%nat ->
+  assemble2 indexed defs ps budget = Ok r -> r_iters r = budget.
+Proof. exact assemble2_assert_count. Qed.
+
+Example C09b_assert_nonvacuous :
+  (exists r, assemble2 true [] (ex_assert_addr 1) 3 = Ok r /\ r_iters r = 3%nat) /\
+  assemble2 true [] (ex_assert_addr 2) 3 = Err /\ assemble2 true [] (ex_assert_addr 1) 1 = Err.
+Proof. exact assert_address_nonvacuous. Qed.
 
 Theorem C09b_address_mode_agree : forall mb b pos a,
   Cursor.eval_address mb b pos false = Ok a -> Cursor.eval_address mb b pos true = Ok a.
